@@ -3,7 +3,7 @@ import random
 import collections
 import exprcheck, gen, lib
 
-TARGETS = [("wire", None), ("reginput", None), ("stall", 1), ("bubble", 1), ("reg_dstE", 4), ("reg_inputE", 64),
+TARGETS = [("const", None), ("wire", None), ("reginput", None), ("stall", 1), ("bubble", 1), ("reg_dstE", 4), ("reg_inputE", 64),
            ("mem_readbit", 1), ("mem_addr", 64), ("Stat", 3), ("pc", 64)]
 
 
@@ -19,6 +19,15 @@ def program_for(ast, env, target, tw):
     """A program assigning the expression (over wires a, b of the env's widths) to a target."""
     st = ["register pP { pc : 64 = 0; }", "p_pc = P_pc + 10;"]
     need = {"Stat": "Stat = STAT_AOK;", "pc": "pc = P_pc;"}
+    if target == "const":
+        # operands are constants themselves; zero-width ones cannot be written as constants
+        for n, w, v, c in env:
+            if w == 0:
+                return None
+            st.append("const %s = %s;" % (n, gen.const_text(v & ((1 << w) - 1), w) if w else str(v)))
+        st.append("const KT = %s;" % gen.to_text(ast))
+        st += list(need.values())
+        return "\n".join(st) + "\n"
     for n, w, v, c in env:
         if w is None:
             st.append("const %s = %d;" % (n, v))
@@ -73,14 +82,20 @@ def check(report, tier, seed):
                     if tier == "quick" and rng.random() < 0.75:
                         continue
                     tw = tw0 if tw0 is not None else rng.choice([1, 4, 8, 64, 128])
-                    env = [("a", wl, rng.getrandbits(8), False), ("b", wr, rng.getrandbits(8), False)]
+                    mk = lambda w: rng.getrandbits(8) & ((1 << w) - 1 if w is not None else 255)
+                    env = [("a", wl, mk(wl), False), ("b", wr, mk(wr), False)]
                     ast = ("b", op, ("w", "a"), ("w", "b"))
+                    text = program_for(ast, env, target, tw)
+                    if text is None:
+                        continue
+                    if target == "const":
+                        tw = None              # a constant takes whatever width its expression has
                     cid = "q%d" % k
                     k += 1
-                    pcases[cid] = {"hcl": program_for(ast, env, target, tw), "target": target, "tw": tw}
+                    pcases[cid] = {"hcl": text, "target": target, "tw": tw}
                     hl.append("%s front %s 0" % (cid, lib.hexs(pcases[cid]["hcl"])))
                     # unsized wires are constants in the program: visible to the always-true test
-                    env2 = [(n, w, v, w is None) for n, w, v, c in env]
+                    env2 = [(n, w, v, w is None or target == "const") for n, w, v, c in env]
                     ml.append("%s mexpr %s %s %s" % (cid, fb, lib.hexs(gen.to_sexpr(ast)), exprcheck.env_args(env2)))
     impl = lib.run_cases(lib.build_harness("dev", feats), hl)
     model = lib.run_cases(lib.build_driver(), ml)
@@ -96,6 +111,8 @@ def check(report, tier, seed):
         if b["check"][0] == "ok":
             w = None if b["check"][1] == "u" else int(b["check"][1])
             want = ("accept",) if wcombine(c["tw"], w) else ("reject", "MismatchedWireWidths")
+            if c["target"] == "const" and b["eval"] and b["eval"][0] == "err":
+                want = ("reject", b["eval"][1][0].split("|")[0])       # constants are evaluated while building
         else:
             want = ("reject", b["check"][1][0].split("|")[0])
         verdicts[want[0]] += 1
